@@ -3,7 +3,9 @@
 
 proofs (Properties_C17.v)  +  correspondence: extracted model of KDTree::squaredDistanceLowerBound and
 IterativeNNQuery (run on the tree the real KDTree built, read back from the harness) vs the compiled
-C++  +  spec monitor: exhaustive search computed here, on kd / LC / kernel (KHC) trees, bucket sizes
+C++; extracted model of the construction (C17Build.kd_build; its std::nth_element oracle answers with the
+arrangements recorded from the real std::nth_element calls) vs the real tree  +  spec monitor: well-
+formedness of every real kd-tree, exhaustive search computed here, on kd / LC / kernel (KHC) trees, bucket sizes
 > 1, and NearestNeighborModel predictions with tree vs brute-force back-end.
 
 Streams and violation keys (stable; matched against known_findings.json):
@@ -11,6 +13,11 @@ Streams and violation keys (stable; matched against known_findings.json):
                                cut (BinaryTree::splitList takes `pos->key` for the nearest point on the
                                other side), query result differs from exhaustive search
   tree:query <kind>            default construction, tree consistent, query result wrong
+  tree:build-wf kd             the kd-tree KDTree::buildTree built is not well-formed (a point on the wrong side of a cut, a leaf
+                               with two different points, leaves not a partition of 0..n-1): contradicts kd_build_wellformed
+  construction                 (correspondence) the tree built by the construction model C17Build.kd_build, with the recorded
+                               std::nth_element results as oracle, differs from the real tree (cut dimension, threshold or the
+                               left/right index sets of a node), or a recorded std::nth_element result lacks the median property
   tree:single-leaf <kind>      all points identical (or n = 1): the root is a leaf, IterativeNNQuery casts a TraceNode to TraceLeaf
   tree:duplicate-points <kind> LC / KHC tree construction recurses without bound when a node holds only copies of one point
   tree:kernel-metric khc2      KHCTree with a non-linear kernel: KHCTree does not override BinaryTree::kernel(), so the query measures
@@ -54,6 +61,31 @@ def parse_tree(s):
 
 def tree_planes(t):
     return [] if t[0] == "L" else [(t[1], t[2])] + tree_planes(t[3]) + tree_planes(t[4])
+
+def tree_leaves(t):
+    return [t[1]] if t[0] == "L" else tree_leaves(t[3]) + tree_leaves(t[4])
+
+def tree_canon(t):
+    return "L" + ",".join(map(str, sorted(t[1]))) if t[0] == "L" else "N%d:%d(%s)(%s)" % (t[1], t[2], tree_canon(t[3]), tree_canon(t[4]))
+
+def build_wf_monitor(c, t):
+    """the well-formedness predicate of the theorems evaluated directly on the real tree (thresholds are dumped doubled)"""
+    pts, n = c["pts"], len(c["pts"])
+    idx = [i for l in tree_leaves(t) for i in l]
+    if sorted(idx) != list(range(n)): return "the leaves %s are not a partition of 0..%d" % (tree_leaves(t), n - 1)
+    def go(t):
+        if t[0] == "L":
+            if not t[1]: return "empty leaf"
+            if c["bucket"] == 0 and len(set(tuple(pts[i]) for i in t[1])) > 1:
+                return "leaf %s holds different points %s" % (t[1], [pts[i] for i in t[1]])
+            return None
+        cd, thr2 = t[1], t[2]
+        for i in [i for l in tree_leaves(t[3]) for i in l]:
+            if 2 * pts[i][cd] > thr2: return "point %d %s is in the LEFT sub-tree of the cut x[%d] < %s" % (i, pts[i], cd, thr2 / 2)
+        for i in [i for l in tree_leaves(t[4]) for i in l]:
+            if 2 * pts[i][cd] < thr2: return "point %d %s is in the RIGHT sub-tree of the cut x[%d] >= %s" % (i, pts[i], cd, thr2 / 2)
+        return go(t[3]) or go(t[4])
+    return go(t)
 
 def gen_points(rng, big):
     dim = rng.choice([1, 1, 2, 2, 2, 3, 3, 4])
@@ -117,6 +149,10 @@ def monitor_case(c, out):
     if not out or not out[0].startswith("D n="):
         return [("harness", "no tree built: %s" % (out[0] if out else "<nothing>"))]
     mis = impl_meta(out[0]); n = len(c["pts"])
+    mt = re.search(r"tree=(\S+)", out[0])
+    if c["kind"] == "kd" and mt:
+        bad = build_wf_monitor(c, parse_tree(mt.group(1)))
+        if bad: msgs.append(("tree:build-wf kd", "KDTree(%d points, dim %d, bucket %d) tree=%s: %s" % (n, c["dim"], c["bucket"], mt.group(1), bad)))
     if re.search(r"nodes=1\b", out[0]): tkey = "tree:single-leaf " + c["kind"]
     elif c["bucket"] > 1: tkey = "tree:bucket>1 " + c["kind"]
     elif mis > 0: tkey = "tree:split-threshold " + c["kind"]
@@ -207,11 +243,13 @@ def canon_d(o):
 def main():
     ck = Check(PID)
     ck.trusted = DEFAULT_TRUSTED + [
-        "modelled not verified: boost::intrusive::rbtree (as a sorted list), std::nth_element/std::partition inside partitionEqually (the real tree is read back from the harness and checked, not re-derived)",
+        "modelled not verified: boost::intrusive::rbtree (as a sorted list); std::nth_element (an oracle: the theorems hold for every result with the median property, the recorded real results are checked with median_okb); the two std::partition calls of partitionEqually (stable partitions in the model)",
+        "the harness records the results of std::nth_element by redirecting the name for the Shark headers ('#define nth_element c17_nth_element', wrapper calls the real std::nth_element; no source change)",
         "LC-tree and kernel (KHC) trees: exhaustive-search monitor only, no model",
         "the harness reads m_cutDim and m_squaredRadius through '#define private public' (no source change)"]
     ck.assumptions = ["integer data coordinates, half-integer query coordinates: all squared distances and thresholds are exact in double (sqrt results are squared back and rounded)",
-                      "theorems: the tree is well-formed for the data (left <= threshold <= right on the cut coordinate, every leaf holds copies of one point, leaf index lists are non-empty) — checked on every real tree by the extracted wf_treeb",
+                      "query theorems: the tree is well-formed for the data (left <= threshold <= right on the cut coordinate, every leaf holds copies of one point, leaf index lists are non-empty) — proved for the construction model (C17_kd_build_wellformed) and checked on every real tree by the extracted wf_treeb and an independent monitor",
+                      "construction theorems: non-empty data set, all points of one dimension, std::nth_element returns a rearrangement with the median property at position (size+1)/2, fewer than 2^32 points (depth limit), default TreeConstruction (bucket size 1); thresholds exact on doubled integer coordinates",
                       "at most n calls of next() on a data set of n points"]
     ck.proofs()
     model = extract_model(PID, "C17Extract.v", "c17_driver.ml")
@@ -297,15 +335,33 @@ def main():
     # ---- correspondence on the kd/default stream -----------------------------------------------
     kd = [ci for ci, c in enumerate(cases) if c["kind"] == "kd" and c["bucket"] == 0 and io[ci][1] == 0 and any(l.startswith("Q") for l in c["body"])]
     def model_lines(c, implD):
-        m = re.search(r"tree=(\S+)", implD)
-        return [dline(c, m.group(1))] + [l for l in c["body"] if l.startswith("Q")]
+        m = re.search(r"tree=(\S+)", implD); nth = re.search(r"nth=(\S+)", implD)
+        return [dline(c, m.group(1) + (" nth=" + nth.group(1) if nth else ""))] + [l for l in c["body"] if l.startswith("Q")]
     mo = run_cases(model, [model_lines(cases[ci], io[ci][0][0]) for ci in kd], os.path.join(tmpd, "all_model.txt"))
     dis = []; ntie_free = 0; nq = 0; notwf = 0
+    bstat = {"trees": 0, "nth_calls": 0, "sortoracle_same": 0, "inner_nodes": 0}
+    def build_differs(md, implD, count=True):
+        """construction model (oracle = recorded std::nth_element results) vs the real tree: cut dimension, threshold,
+        left/right index set of every node (leaves compared as sets)"""
+        f = dict(x.split("=", 1) for x in md.split() if "=" in x)
+        if "built" not in f: return "construction: the model driver printed no built tree: %s" % md[:200]
+        real = tree_canon(parse_tree(re.search(r"tree=(\S+)", implD).group(1)))
+        if f["built"] != real: return "construction: model tree %s / real tree %s" % (f["built"], real)
+        if f["oracle"] != "ok": return "construction: recorded std::nth_element result rejected: %s (%s)" % (f["oracle"], re.search(r"nth=(\S+)", implD).group(1)[:300])
+        u, k = f["calls"].split("/")
+        if u != k: return "construction: the model consulted %s of %s recorded std::nth_element calls" % (u, k)
+        if f["modelwf"] != "WF": return "construction: the model tree fails wf_treeb (contradicts kd_build_wellformed): %s" % f["built"]
+        if not count: return None
+        bstat["trees"] += 1; bstat["nth_calls"] += int(k); bstat["sortoracle_same"] += f["sortoracle"] == "same"
+        bstat["inner_nodes"] += f["built"].count("N")
+        return None
     def differs(c, a, b):
         """a: model lines, b: implementation lines (D + Q lines only)"""
         nonlocal ntie_free, nq
         if len(a) != len(b): return "model printed %d lines, implementation %d" % (len(a), len(b))
         if canon_d(a[0]) != canon_d(b[0]): return "tree read back differently: %s / %s" % (a[0][:120], b[0][:120])
+        w = build_differs(a[0], b[0])
+        if w: return w
         for l, x, y in zip([l for l in c["body"] if l.startswith("Q")], a[1:], b[1:]):
             (cx, tf), (cy, _) = canon_q(c, l, x), canon_q(c, l, y)
             nq += 1; ntie_free += 1 if tf else 0
@@ -313,7 +369,11 @@ def main():
         return None
     for ci, (a, rca, ea) in zip(kd, mo):
         if rca != 0: raise RuntimeError("model driver failed on case %d: %s" % (ci, ea))
-        if a and a[0].endswith("NOTWF"): notwf += 1
+        if a and re.search(r" NOTWF( built=|$)", a[0]):
+            notwf += 1
+            if not any(k == "tree:build-wf kd" for k, _ in case_failures(cases[ci], io[ci])):
+                failing.setdefault("tree:build-wf kd", []).append((ci, "the extracted wf_treeb rejects the real tree %s" % a[0][:200]))
+                mon_failed_cases.add(ci)
         if ci in mon_failed_cases: continue
         implq = [io[ci][0][0]] + [o for l, o in zip(cases[ci]["body"], io[ci][0][1:]) if l.startswith("Q")]
         why = differs(cases[ci], a, implq)
@@ -366,8 +426,20 @@ def main():
                     found = True; break
         if not found and not unknown_mon:
             ci, why = dis[0]; c = cases[ci]
+            if why.startswith("construction"):
+                # shrink the data set on which the construction model and KDTree::buildTree differ
+                def bd(pts):
+                    if len(set(map(tuple, pts))) < 2: return None
+                    c1 = dict(c, pts=pts, body=[]); o, rc, e = run_impl([c1], "shrink")[0]
+                    if rc != 0 or not o: return None
+                    a, rca, _ = run_cases(model, [model_lines(c1, o[0])], os.path.join(tmpd, "s_model.txt"))[0]
+                    return build_differs(a[0], o[0], count=False) if a else None
+                idx = ddmin(list(range(len(c["pts"]))), lambda keep: bool(bd([c["pts"][i] for i in keep])), max_runs=120)
+                w = bd([c["pts"][i] for i in idx])
+                if w: c = dict(c, pts=[c["pts"][i] for i in idx], body=[l for l in c["body"] if l.startswith("Q")][:1]); why = w
+                dis = [(ci, why)] + dis[1:]
             # shrink to one disagreeing query
-            for l in [l for l in c["body"] if l.startswith("Q")]:
+            for l in ([] if why.startswith("construction") else [l for l in c["body"] if l.startswith("Q")]):
                 c1 = dict(c, body=[l]); o, rc, e = run_impl([c1], "shrink")[0]
                 if rc != 0: continue
                 a, rca, _ = run_cases(model, [model_lines(c1, o[0])], os.path.join(tmpd, "s_model.txt"))[0]
@@ -375,10 +447,14 @@ def main():
                 if w: c, why = c1, w; break
             lines = case_lines(c)
             cf = ck.write_replay("case_corr_%d.txt" % ci, "\n".join(lines) + "\n")
-            ck.violation("correspondence", {"case_file": cf, "case": lines, "difference": why, "broken": "correspondence C17Model.next/enqueue/lbound vs IterativeNNQuery/KDTree",
+            ck.violation("correspondence", {"case_file": cf, "case": lines, "difference": why,
+                                            "broken": ("correspondence C17Build.kd_build (oracle = recorded std::nth_element results) vs KDTree::buildTree/calculateCuttingDimension, BinaryTree::splitList, partitionEqually/median_element"
+                                                       if why.startswith("construction") else "correspondence C17Model.next/enqueue/lbound vs IterativeNNQuery/KDTree"),
                                             "replay_cmd": "python3 tools/c17.py --replay %s" % cf},
-                         "correspondence model vs IterativeNNQuery/KDTree no longer checks (%d cases differ: %s); the exhaustive-search monitor passes on every explored input" % (len(dis), why[:300]), no_input=True)
-    ck.oblige("correspondence C17Model (query on the real tree) vs KDTree/IterativeNNQuery on %d data sets" % len(kd), not dis, "%d disagreements" % len(dis))
+                         "correspondence model vs %s no longer checks (%d cases differ: %s); the exhaustive-search and well-formedness monitors pass on every explored input" % ("KDTree::buildTree" if why.startswith("construction") else "IterativeNNQuery/KDTree", len(dis), why[:400]), no_input=True)
+    ck.oblige("correspondence C17Model (query on the real tree) vs KDTree/IterativeNNQuery on %d data sets" % len(kd), not [d for d in dis if not d[1].startswith("construction")], "%d disagreements" % len(dis))
+    ck.oblige("correspondence C17Build.kd_build (oracle = recorded std::nth_element results) vs KDTree::buildTree on %d data sets: cut dimension, threshold, left/right index sets of %d inner nodes; %d recorded nth_element results pass median_okb"
+              % (bstat["trees"], bstat["inner_nodes"], bstat["nth_calls"]), not [d for d in dis if d[1].startswith("construction")] and (bstat["trees"] > 0 or not kd), "%d disagreements" % len([d for d in dis if d[1].startswith("construction")]))
 
     nlines = sum(len(c["body"]) for c in cases)
     ck.cov["evaluations"] = nlines
@@ -396,9 +472,10 @@ def main():
     ck.notes["kd_queries_compared_with_model"] = nq
     ck.notes["of_which_tie_free(queue size and radius compared too)"] = ntie_free
     ck.notes["real_kd_trees_rejected_by_wf_treeb"] = notwf
+    ck.notes["construction_model"] = dict(bstat, note="trees = kd data sets on which kd_build (recorded oracle) reproduced the real tree; sortoracle_same = of these, kd_build with the sorting oracle gives the same tree")
     ck.notes["real_trees_with_misplaced_points"] = sum(1 for (o, rc, e) in io if rc == 0 and o and impl_meta(o[0]) > 0)
     ck.notes["monitor_failures_by_key"] = {k: len(v) for k, v in failing.items()}
-    ck.finish(explanation="theorems quantify over all well-formed trees, data sets, queries and k; the real kd-tree is read back and checked with the extracted wf_treeb on every run; LC/KHC trees, bucket sizes > 1 and NearestNeighborModel are monitored against exhaustive search only")
+    ck.finish(explanation="theorems quantify over all data sets, all results of std::nth_element with the median property, queries and k: the construction model yields a well-formed tree whose leaves partition the index set, and the query model returns the k nearest neighbours on every well-formed tree (end to end: C17_kd_build_then_query_correct); both models are tied to the C++ by correspondence runs (construction: recorded nth_element results as oracle, every node's cut dimension / threshold / index sets compared; query: every call of next()); LC/KHC trees, bucket sizes > 1 and NearestNeighborModel are monitored against exhaustive search only")
 
 if __name__ == "__main__":
     main()
